@@ -42,6 +42,10 @@ struct StreamPlan {
     client_mode: String,
     /// the server: "echo_len" (reads the request to its end, then responds) | "respond_early" (responds while reading) | "drop" (drops the stream after accept)
     server_mode: String,
+    /// how each side ends its writing: "shutdown" (write calls, then shutdown) | "fin_last" (the last chunk is written by the
+    /// call that also finishes the stream) | "fin_all" (the whole payload in one finishing write call)
+    client_fin: String,
+    server_fin: String,
     start_us: u64,
 }
 
@@ -54,6 +58,11 @@ struct Plan {
     #[serde(skip_serializing_if = "Option::is_none")]
     outage: Option<(String, u64, u64)>,
     vanish_at_us: u64,
+    /// vanish mode only, instead of a fixed instant: the server host disappears right after it has sent this many datagrams
+    #[serde(skip_serializing_if = "Option::is_none")]
+    vanish_after_server_packets: Option<u64>,
+    /// real TCP runs only: the client's connection goes through a slow relay with minimal socket buffers (short writes)
+    slow_tcp: bool,
     client_mtu: u16,
     server_mtu: u16,
     streams: Vec<StreamPlan>,
@@ -70,25 +79,58 @@ fn plan(seed: u64, rng: &mut StdRng, k: usize) -> Plan {
         rbuf: [1usize, 7, 100, 1500, 65_536][rng.random_range(0..5)],
         client_mode: ["shutdown", "shutdown", "read_first", "drop_after_write"][rng.random_range(0..4)].to_string(),
         server_mode: ["echo_len", "echo_len", "respond_early", "drop"][rng.random_range(0..if mode == "vanish" { 3 } else { 4 })].to_string(),
+        client_fin: ["shutdown", "shutdown", "fin_last", "fin_all"][rng.random_range(0..4)].to_string(),
+        server_fin: ["shutdown", "shutdown", "fin_last", "fin_all"][rng.random_range(0..4)].to_string(),
         start_us: i as u64 * [0u64, 1_000, 500_000][rng.random_range(0..3)],
     }).collect::<Vec<_>>();
     // one-byte chunks on megabyte transfers only cost time
-    let streams = streams.into_iter().map(|mut s| { if s.request > 70_000 { s.wchunk = s.wchunk.max(1000); } if s.response > 70_000 || s.request > 70_000 { s.rbuf = s.rbuf.max(1500); } s }).collect();
+    let streams: Vec<StreamPlan> = streams.into_iter().map(|mut s| { if s.request > 70_000 || s.response > 70_000 { s.wchunk = s.wchunk.max(1000); } if s.response > 70_000 || s.request > 70_000 { s.rbuf = s.rbuf.max(1500); } s }).collect();
+    // half of the vanish runs: datagram loss as well, and the server disappears after a number of datagrams that lies
+    // within its response (so the end of the response may have arrived while earlier parts are still missing)
+    let by_count = mode == "vanish" && rng.random_bool(0.5);
+    let client_mtu = [1250u16, 1472, 1500, 9000, 32_000][rng.random_range(0..5)];
+    let server_mtu = [1250u16, 1472, 1500, 9000, 32_000][rng.random_range(0..5)];
+    let expected: u64 = streams.iter().map(|s: &StreamPlan| s.response / (server_mtu as u64 - 100) + 2 + s.request / (client_mtu as u64 - 100) / 2).sum();
     Plan {
         seed, mode: mode.clone(),
-        drop_permille: if mode == "lossy" { [10u32, 50, 150][rng.random_range(0..3)] } else { 0 },
+        drop_permille: if mode == "lossy" { [10u32, 50, 150][rng.random_range(0..3)] } else if by_count { [50u32, 150, 300][rng.random_range(0..3)] } else { 0 },
+        vanish_after_server_packets: if by_count { Some(rng.random_range(1..expected + 6)) } else { None },
+        slow_tcp: false,
         outage: if mode == "lossy" && rng.random_bool(0.5) { let f = [500u64, 3_000, 50_000][rng.random_range(0..3)]; Some((["c2s", "s2c", "both"][rng.random_range(0..3)].to_string(), f, f + [2_000u64, 300_000, 4_000_000][rng.random_range(0..3)])) } else { None },
-        vanish_at_us: if mode == "vanish" { [0u64, 700, 3_000, 200_000][rng.random_range(0..4)] } else { 0 },
-        client_mtu: [1250u16, 1472, 1500, 9000, 32_000][rng.random_range(0..5)],
-        server_mtu: [1250u16, 1472, 1500, 9000, 32_000][rng.random_range(0..5)],
+        vanish_at_us: if mode == "vanish" && !by_count { [0u64, 700, 3_000, 200_000][rng.random_range(0..4)] } else { 0 },
+        client_mtu, server_mtu,
         streams,
     }
 }
 
-async fn write_side<W: AsyncWriteExt + Unpin>(w: &mut W, pipe: u64, total: u64, chunk: usize, finish: bool) -> bool {
+/// a write call that also finishes the stream
+trait FinWrite { fn write_fin(&mut self, buf: &[u8]) -> impl std::future::Future<Output = std::io::Result<()>>; }
+impl<Sub: s2n_quic_dc::event::Subscriber> FinWrite for s2n_quic_dc::stream::send::application::Writer<Sub> {
+    async fn write_fin(&mut self, buf: &[u8]) -> std::io::Result<()> { let mut b = buf; self.write_all_from_fin(&mut b).await.map(|_| ()) }
+}
+
+async fn write_side<W: AsyncWriteExt + Unpin + FinWrite>(w: &mut W, pipe: u64, total: u64, chunk: usize, finish: bool, fin: &str) -> bool {
     let mut off = 0u64;
+    let chunk = if finish && fin == "fin_all" { (total as usize).max(1) } else { chunk };
+    if finish && fin != "shutdown" && total == 0 {
+        emit(json!({"ev": "wstart_fin", "pipe": pipe, "off": 0, "len": 0}));
+        if let Err(e) = w.write_fin(&[]).await { emit(json!({"ev": "werr", "pipe": pipe, "off": 0, "kind": format!("{:?}", e.kind())})); return false; }
+        emit(json!({"ev": "w", "pipe": pipe, "off": 0}));
+        emit(json!({"ev": "wfin", "pipe": pipe, "total": 0}));
+        return true;
+    }
     while off < total {
         let n = chunk.min((total - off) as usize);
+        if finish && fin != "shutdown" && off + n as u64 == total {
+            // the last (or only) chunk: written by the call that also finishes the stream
+            let buf: Vec<u8> = (0..n as u64).map(|i| pat(pipe, off + i)).collect();
+            emit(json!({"ev": "wstart_fin", "pipe": pipe, "off": off, "len": n}));
+            if let Err(e) = w.write_fin(&buf).await { emit(json!({"ev": "werr", "pipe": pipe, "off": off, "kind": format!("{:?}", e.kind())})); return false; }
+            off += n as u64;
+            emit(json!({"ev": "w", "pipe": pipe, "off": off}));
+            emit(json!({"ev": "wfin", "pipe": pipe, "total": total}));
+            return true;
+        }
         let buf: Vec<u8> = (0..n as u64).map(|i| pat(pipe, off + i)).collect();
         emit(json!({"ev": "wstart", "pipe": pipe, "off": off, "len": n}));
         if let Err(e) = w.write_all(&buf).await {
@@ -125,10 +167,45 @@ async fn read_side<R: AsyncReadExt + Unpin>(r: &mut R, pipe: u64, rbuf: usize) -
     }
 }
 
-async fn client_stream(client: &Client, addr_sim: bool, server: Option<&Server>, k: u64, sp: StreamPlan) {
+/// a byte-for-byte TCP relay in front of `upstream` that reads slowly through a minimal receive buffer, so that the
+/// client's kernel accepts only part of each write
+async fn slow_relay(upstream: std::net::SocketAddr) -> std::io::Result<std::net::SocketAddr> {
+    let socket = tokio::net::TcpSocket::new_v4()?;
+    socket.set_recv_buffer_size(1)?;
+    socket.bind("127.0.0.1:0".parse().unwrap())?;
+    let listener = socket.listen(4)?;
+    let addr = listener.local_addr()?;
+    tokio::spawn(async move {
+        let Ok((down, _)) = listener.accept().await else { return };
+        let Ok(up) = tokio::net::TcpStream::connect(upstream).await else { return };
+        let (mut down_rx, mut down_tx) = down.into_split();
+        let (mut up_rx, mut up_tx) = up.into_split();
+        tokio::spawn(async move { let _ = tokio::io::copy(&mut up_rx, &mut down_tx).await; let _ = down_tx.shutdown().await; });
+        let mut buf = [0u8; 700];
+        let mut total = 0usize;
+        loop {
+            let n = match down_rx.read(&mut buf).await { Ok(0) | Err(_) => break, Ok(n) => n };
+            if up_tx.write_all(&buf[..n]).await.is_err() { break; }
+            total += n;
+            if total % 16 == 0 { tokio::time::sleep(Duration::from_micros(50)).await; }
+        }
+        let _ = up_tx.shutdown().await;
+    });
+    Ok(addr)
+}
+
+async fn connect_slow(client: &Client, server: &Server) -> std::io::Result<s2n_quic_dc::stream::testing::Stream> {
+    let relay = slow_relay(server.local_addr()).await?;
+    let socket = tokio::net::TcpSocket::new_v4()?;
+    socket.set_send_buffer_size(1)?;
+    let socket = socket.connect(relay).await?;
+    client.connect_tcp_with(server, socket).await
+}
+
+async fn client_stream(client: &Client, addr_sim: bool, server: Option<&Server>, k: u64, sp: StreamPlan, slow: bool) {
     let (req, resp) = (2 * k, 2 * k + 1);
     emit(json!({"ev": "open", "k": k, "req": sp.request, "resp": sp.response, "client_mode": sp.client_mode, "server_mode": sp.server_mode}));
-    let stream = if addr_sim { client.connect_sim("server:443").await } else { client.connect_to(server.unwrap()).await };
+    let stream = if addr_sim { client.connect_sim("server:443").await } else if slow { connect_slow(client, server.unwrap()).await } else { client.connect_to(server.unwrap()).await };
     let stream = match stream {
         Ok(s) => s,
         Err(e) => { emit(json!({"ev": "connect_err", "k": k, "kind": format!("{:?}", e.kind())})); return; }
@@ -141,25 +218,26 @@ async fn client_stream(client: &Client, addr_sim: bool, server: Option<&Server>,
     head.push(match sp.server_mode.as_str() { "echo_len" => 0, "respond_early" => 1, _ => 2 });
     head.extend_from_slice(&(sp.rbuf as u32).to_be_bytes());
     head.extend_from_slice(&(sp.wchunk as u32).to_be_bytes());
+    head.push(match sp.server_fin.as_str() { "fin_last" => 1, "fin_all" => 2, _ => 0 });
     if send.write_all(&head).await.is_err() {
         emit(json!({"ev": "werr", "pipe": req, "off": 0, "kind": "header"}));
         return;
     }
     match sp.client_mode.as_str() {
         "read_first" => {
-            let w = async { write_side(&mut send, req, sp.request, sp.wchunk, true).await };
+            let w = async { write_side(&mut send, req, sp.request, sp.wchunk, true, &sp.client_fin).await };
             let r = async { read_side(&mut recv, resp, sp.rbuf).await };
             let _ = tokio::join!(w, r);
         }
         "drop_after_write" => {
-            let _ = write_side(&mut send, req, sp.request, sp.wchunk, false).await;
+            let _ = write_side(&mut send, req, sp.request, sp.wchunk, false, "shutdown").await;
             emit(json!({"ev": "dropped", "pipe": req}));
             emit(json!({"ev": "dropped", "pipe": resp}));
             drop(send);
             drop(recv);
         }
         _ => {
-            if write_side(&mut send, req, sp.request, sp.wchunk, true).await {
+            if write_side(&mut send, req, sp.request, sp.wchunk, true, &sp.client_fin).await {
                 let _ = read_side(&mut recv, resp, sp.rbuf).await;
             } else {
                 let _ = read_side(&mut recv, resp, sp.rbuf).await;
@@ -169,8 +247,8 @@ async fn client_stream(client: &Client, addr_sim: bool, server: Option<&Server>,
     emit(json!({"ev": "client_done", "k": k}));
 }
 
-async fn server_stream<S: AsyncReadExt + AsyncWriteExt + Unpin>(mut stream: S) {
-    let mut head = [0u8; 25];
+async fn server_stream<Sub: s2n_quic_dc::event::Subscriber>(mut stream: s2n_quic_dc::stream::application::Stream<Sub>) {
+    let mut head = [0u8; 26];
     if stream.read_exact(&mut head).await.is_err() {
         emit(json!({"ev": "server_head_err"}));
         return;
@@ -180,19 +258,21 @@ async fn server_stream<S: AsyncReadExt + AsyncWriteExt + Unpin>(mut stream: S) {
     let mode = head[16];
     let rbuf = u32::from_be_bytes(head[17..21].try_into().unwrap()) as usize;
     let wchunk = u32::from_be_bytes(head[21..25].try_into().unwrap()) as usize;
+    let fin = ["shutdown", "fin_last", "fin_all"][head[25].min(2) as usize];
     let (req, resp) = (2 * k, 2 * k + 1);
     match mode {
         2 => { emit(json!({"ev": "dropped", "pipe": req})); emit(json!({"ev": "dropped", "pipe": resp})); drop(stream); }
         1 => {
-            let (mut r, mut w) = tokio::io::split(stream);
+            let (mut r, mut w) = stream.into_split();
             let a = async { read_side(&mut r, req, rbuf).await };
-            let b = async { write_side(&mut w, resp, response, wchunk, true).await };
+            let b = async { write_side(&mut w, resp, response, wchunk, true, fin).await };
             let _ = tokio::join!(a, b);
         }
         _ => {
-            let got = read_side(&mut stream, req, rbuf).await;
+            let (mut r, mut w) = stream.into_split();
+            let got = read_side(&mut r, req, rbuf).await;
             if got.is_some() {
-                let _ = write_side(&mut stream, resp, response, wchunk, true).await;
+                let _ = write_side(&mut w, resp, response, wchunk, true, fin).await;
             } else {
                 emit(json!({"ev": "dropped", "pipe": resp}));
             }
@@ -201,7 +281,14 @@ async fn server_stream<S: AsyncReadExt + AsyncWriteExt + Unpin>(mut stream: S) {
     emit(json!({"ev": "server_done", "k": k}));
 }
 
+/// every simulation runs on a thread of its own: after a panic of the code under test the executor's thread-local
+/// state is not reusable (later runs on the same thread crawl)
 fn run_sim(p: Plan) -> Vec<Value> {
+    std::thread::Builder::new().stack_size(64 << 20).spawn(move || run_sim_here(p)).unwrap().join()
+        .unwrap_or_else(|e| vec![json!({"ev": "panic", "msg": panic_msg(e)})])
+}
+
+fn run_sim_here(p: Plan) -> Vec<Value> {
     EV.with(|e| e.borrow_mut().clear());
     let p2 = p.clone();
     let r = std::panic::catch_unwind(std::panic::AssertUnwindSafe(move || {
@@ -210,10 +297,26 @@ fn run_sim(p: Plan) -> Vec<Value> {
             let mut rng = StdRng::seed_from_u64(p.seed ^ 0x51ed);
             let (permille, outage, vanish_at) = (p.drop_permille, p.outage.clone(), if p.mode == "vanish" { Some(p.vanish_at_us) } else { None });
             let mut server_ip = None;
+            let by_count = p.vanish_after_server_packets;
+            let vanish_at = if by_count.is_some() { None } else { vanish_at };
+            let mut from_server = 0u64;
+            let mut gone = false;
             ::bach::net::monitor::on_packet_sent(move |packet| {
                 let t = now_us();
                 if server_ip.is_none() && packet.destination().port() == 443 { server_ip = Some(packet.destination().ip()); }
                 let to_server = Some(packet.destination().ip()) == server_ip;
+                if gone { return ::bach::net::monitor::Command::Drop; }
+                if let (Some(n), false) = (by_count, to_server) {
+                    if server_ip.is_some() {
+                        from_server += 1;
+                        if from_server > n {
+                            // the server host has sent its n datagrams: from now on it is gone
+                            gone = true;
+                            emit(json!({"ev": "vanished"}));
+                            return ::bach::net::monitor::Command::Drop;
+                        }
+                    }
+                }
                 if let Some(v) = vanish_at {
                     // the server host disappears: nothing reaches it and nothing leaves it any more
                     if t >= v { return ::bach::net::monitor::Command::Drop; }
@@ -233,7 +336,7 @@ fn run_sim(p: Plan) -> Vec<Value> {
                     let client = client.clone();
                     handles.push(async move {
                         Duration::from_micros(sp.start_us).sleep().await;
-                        client_stream(&client, true, None, k as u64, sp).await;
+                        client_stream(&client, true, None, k as u64, sp, false).await;
                     });
                 }
                 futures_join_all(handles).await;
@@ -276,14 +379,18 @@ pub fn sim_record(args: &[String]) -> Value {
     let mut out = TraceOut::new(&args[2]);
     let mut rng = StdRng::seed_from_u64(seed ^ 0xc20);
     let (mut bytes, mut panics) = (0u64, 0u64);
+    // optional 4th argument: run only the plan with this index (reproduction of a single run)
+    let only: Option<usize> = args.get(3).and_then(|x| x.parse().ok());
     for k in 0..count {
         let p = plan(seed.wrapping_mul(1000) + k as u64, &mut rng, k);
+        if only.is_some_and(|o| o != k) { continue; }
         out.emit(json!({"ev": "reset", "transport": "udp-sim", "plan": serde_json::to_value(&p).unwrap()}));
         for e in run_sim(p) {
             if e["ev"] == "r" { bytes += e["len"].as_u64().unwrap(); }
             if e["ev"] == "panic" { panics += 1; }
             out.emit(e);
         }
+        out.emit(json!({"ev": "run_end"}));
     }
     let n = out.finish();
     json!({"events": n, "runs": count, "bytes_read": bytes, "panics": panics})
@@ -297,13 +404,18 @@ pub fn real_record(args: &[String]) -> Value {
     let mut out = TraceOut::new(&args[2]);
     let mut rng = StdRng::seed_from_u64(seed ^ 0xc21);
     REAL_T0.get_or_init(std::time::Instant::now);
-    let rt = tokio::runtime::Builder::new_multi_thread().worker_threads(3).enable_all().build().unwrap();
     let mut bytes = 0u64;
     for k in 0..count {
+        // one runtime per run: shutting it down drops every task of the run, so no straggler (a server task still
+        // reading the end of a request) can log into the next run
+        let rt = tokio::runtime::Builder::new_multi_thread().worker_threads(3).enable_all().build().unwrap();
         let mut p = plan(seed.wrapping_mul(1000) + k as u64, &mut rng, 2);
         p.mode = "clean".into();
         for s in &mut p.streams { s.request = s.request.min(300_000); s.response = s.response.min(300_000); }
         let tcp = k % 2 == 1;
+        let slow = k % 4 == 3;
+        p.slow_tcp = slow;
+        if slow { for s in &mut p.streams { s.request = [65_536u64, 300_000, 600_000][rng.random_range(0..3)]; s.wchunk = s.wchunk.max(1000); } }
         REAL_EV.lock().unwrap().clear();
         out.emit(json!({"ev": "reset", "transport": if tcp { "tcp" } else { "udp" }, "plan": serde_json::to_value(&p).unwrap()}));
         let streams = p.streams.clone();
@@ -312,23 +424,32 @@ pub fn real_record(args: &[String]) -> Value {
                 let server = if tcp { Server::tcp().build() } else { Server::udp().build() };
                 let client = Client::builder().build();
                 let srv = server.clone();
+                let served: std::sync::Arc<std::sync::Mutex<Vec<tokio::task::JoinHandle<()>>>> = Default::default();
+                let served2 = served.clone();
                 let acceptor = tokio::spawn(async move {
                     while let Ok((stream, _)) = srv.accept().await {
-                        tokio::spawn(async move { server_stream(stream).await; });
+                        let h = tokio::spawn(async move { server_stream(stream).await; });
+                        served2.lock().unwrap().push(h);
                     }
                 });
                 let mut hs = Vec::new();
                 for (k, sp) in streams.into_iter().enumerate() {
                     let client = client.clone();
                     let server = server.clone();
-                    hs.push(tokio::spawn(async move { client_stream(&client, false, Some(&server), k as u64, sp).await; }));
+                    hs.push(tokio::spawn(async move { client_stream(&client, false, Some(&server), k as u64, sp, slow).await; }));
                 }
                 for h in hs { let _ = h.await; }
-                // give the server tasks a moment to finish reading the ends of the requests
-                tokio::time::sleep(Duration::from_millis(200)).await;
+                // let the server tasks finish reading the ends of the requests
+                tokio::time::sleep(Duration::from_millis(50)).await;
+                let hs: Vec<_> = std::mem::take(&mut *served.lock().unwrap());
+                let deadline = tokio::time::Instant::now() + Duration::from_secs(3);
+                for mut h in hs {
+                    if tokio::time::timeout_at(deadline, &mut h).await.is_err() { h.abort(); let _ = h.await; }
+                }
                 acceptor.abort();
             }).await
         });
+        rt.shutdown_timeout(Duration::from_secs(5));
         if res.is_err() {
             REAL_EV.lock().unwrap().push(json!({"ev": "stall", "what": "run did not finish within 60 s"}));
         }
@@ -338,6 +459,7 @@ pub fn real_record(args: &[String]) -> Value {
             if e["ev"] == "r" { bytes += e["len"].as_u64().unwrap(); }
             out.emit(e);
         }
+        out.emit(json!({"ev": "run_end"}));
     }
     let n = out.finish();
     json!({"events": n, "runs": count, "bytes_read": bytes})
